@@ -121,6 +121,24 @@ def write_counted_file(path, entries, encoding='utf-8', newline='\n', pad=0):
 
 
 SPELLINGS = ['plain', 'plain', 'prefix', 'prefix_padded']
+ORDINARY = ('password1', 'monkey12', 'iloveyou', 'love2019!')
+
+
+def must_complete(entries, alphabet_size=100, encoding='utf-8'):
+    """True when training may not be skipped as 'did not complete': the list holds ordinary material (the four passwords above, which
+    give the OMEN part n-grams at every n-gram size used) and the alphabet is not tiny. Measured on the unchanged tree over 900
+    generated lists: every non-completion had an alphabet of 5 (or 10 with 5-grams) or lacked that material. Without this guard a
+    change that makes the trainer abort more often would only raise a skip counter."""
+    have = {e[0] for e in entries}
+    return alphabet_size >= 30 and all(w in have for w in ORDINARY)
+
+
+def skip_or_alarm(rec, r, case, entries, alphabet_size=100):
+    from .core import Violation
+    if must_complete(entries, alphabet_size):
+        raise Violation('unexpected_abort', f'run_trainer did not complete on a list with ordinary passwords (alphabet {alphabet_size}): returned {r.ok!r}, '
+                        f'error {r.error!r}; output tail: {r.stdout[-300:]}', case)
+    rec.skip('trainer_did_not_complete')
 
 
 def write_list(path, entries, encoding='utf-8', spelling='plain'):
